@@ -21,5 +21,8 @@ BuildFirst == \A i \in DOMAIN hist : /\ (i <= NAssets) = (hist[i].act.op = "AddA
 EmitOK == IF EnvOr("VERIF_BUILDFIRST", "0") = "1" THEN BuildFirst ELSE TRUE
 Emit == ((TLCGet("level") = Depth + 1 \/ Ended) /\ FewRej /\ EmitOK) => PrintT(ToJson([lang |-> EnvOr("VERIF_LANG", "LTiny"), hist |-> hist, abs |-> AbsLegacy, neo |-> [nodes |-> NeoNodes, rels |-> NeoRels]]))
 StopAtEnd == ~Ended
+\* one representative history per distinct model state (for the checks that only need the states: C07, C18, C19)
+GVw == <<vAssets, vAssocs, vAtk>>
+EmitState == (hist # <<>> /\ ~Ended /\ FewRej /\ TLCGet("level") <= Depth) => PrintT(ToJson([lang |-> EnvOr("VERIF_LANG", "LTiny"), hist |-> hist, abs |-> AbsLegacy, neo |-> [nodes |-> NeoNodes, rels |-> NeoRels]]))
 FewRejections == FewRej
 =============================================================================
